@@ -54,6 +54,7 @@ fn dispatch(name: &str, s: &mut src::ReplaySrc) -> bool {
         "nextafter_successor_f32" => widen::nextafter_successor_f32_body(s),
         "nextafter_successor_f64" => widen::nextafter_successor_f64_body(s),
         "divide_segment_bump_f32" => divide::divide_segment_bump_f32_body(s),
+        "divide_segment_n2prime_instance" => divide::divide_segment_n2prime_instance_body(s),
         "divide_segment_n2_instance" => divide::divide_segment_n2_instance_body(s),
         "divide_segment_contract_f64" => divide::divide_segment_contract_body::<f64, _>(s),
         "divide_segment_contract_f32" => divide::divide_segment_contract_body::<f32, _>(s),
